@@ -329,6 +329,10 @@ class SymArray:
             idx2 = idx if isinstance(idx, tuple) else (idx,)
             r = self.vals[tuple(conc_index(i) for i in idx2)]
             return SymArray(r, self.dtype)
+        if isinstance(idx, slice) and hasattr(idx.start, "__len__") and hasattr(idx.stop, "__len__"):
+            # npstructures.mixin.NPSArray semantics (arrays of starts/stops -> ragged slices)
+            from npstructures.raggedarray.raggedslice import ragged_slice
+            return ragged_slice(self, idx.start, idx.stop)
         g = _sym_gather(self, idx)
         if g is not None:
             return g
